@@ -222,9 +222,9 @@ pub fn run(cfg: &Cfg) -> i32 {
         cfg,
         "exploration",
         "case = (self-describing program, handler on/off, ink version edited or not, seeded choices): each program has knots that raise a warning (read of an undeclared variable, also two in one line and one inside a function), an error (division by zero), or both in one line; the line that raises prints a marker, and what follows it varies (plain text = look-ahead rewound, glue = kept, divert, choice point, logic), so the delivered text itself states which messages must have been raised in that continue. With a handler: exactly those messages, once each, in that continue, nothing listed afterwards, continue never Err. Without: new entries of get_current_warnings are exactly those warnings, a warning never makes a continue fail, an error makes exactly that continue Err, stays readable, a further continue fails without changing the lists, can_continue is false until reset. The version-mismatch warning (inkVersion edited to 20) must arrive exactly once, at the first continue. After an error the story is reset or redirected and play goes on. Non-trivial = >= 1 expected message; distinct by (program, configuration, choices).",
-        cfg.pick(4000, 50000),
+        cfg.pick(4000, 1000000),
     );
-    let nprog = cfg.get_u64("programs", cfg.pick(1500, 20000));
+    let nprog = cfg.get_u64("programs", cfg.pick(1500, 300000));
     let mut sampled = 0;
     for i in 0..nprog {
         if !cfg.mine(i) {
